@@ -25,7 +25,59 @@ type target struct {
 	Env  *codecgen.Env
 }
 
-func loadTargets() ([]*target, error) {
+// inTheoremShape: the static hypotheses of the round-trip theorem (CodecEncDecProofs.props_ok) hold
+// for every environment the reflector builds EXCEPT when a oneof property that lives in a sub-message
+// (non-empty proto path: the exposed oneof of a flattened object) shares that sub-message with other
+// hoisted leaves, i.e. its path is a proper prefix of another property's path. The Go side states the
+// expectation from this one shape; the Coq side evaluates the full decider env_static_ok and the two
+// must agree (so any other way of falling outside the hypotheses alarms).
+func inTheoremShape(env *codecgen.Env) bool {
+	for _, s := range env.Schemas {
+		for _, p := range s.Props {
+			if p.Ty == nil || p.Ty.Class != "oneof" || len(p.Path) == 0 {
+				continue
+			}
+			for _, q := range s.Props {
+				if q == p || len(q.Path) <= len(p.Path) {
+					continue
+				}
+				pre := true
+				for i := range p.Path {
+					if q.Path[i] != p.Path[i] {
+						pre = false
+					}
+				}
+				if pre {
+					return false
+				}
+			}
+		}
+	}
+	return true
+}
+
+// loadTargets: the fixed roots, then the randomly generated schemas of this run (generated = the
+// targets from index nFixed on).
+func loadTargets(cfg *vh.Config, res *vh.Result) (ts []*target, nFixed int, err error) {
+	fixed, err := loadFixedTargets()
+	if err != nil {
+		return nil, 0, err
+	}
+	st := &genSchemaStats{}
+	gen := randomTargets(cfg.R.Fork("schemas"), cfg.Scale(3, 14), cfg.Scale(3, 14), st)
+	res.Distribution["gen_j5s_packages"] = st.j5sFiles
+	res.Distribution["gen_j5s_compile_errors"] = st.j5sCompileErr
+	res.Distribution["gen_descriptor_files"] = st.descFiles
+	res.Distribution["gen_descriptor_link_errors"] = st.descLinkErr
+	res.Distribution["gen_schema_roots"] = st.roots
+	res.Distribution["gen_schema_roots_refused_by_reflector"] = st.refused
+	for _, e := range st.firstErr {
+		res.Notes = append(res.Notes, "generated schema not usable: "+e)
+	}
+	return append(fixed, gen...), len(fixed), nil
+}
+
+func loadFixedTargets() ([]*target, error) {
 	mk := func(name string, m proto.Message) *target {
 		return &target{Name: name, New: func() protoreflect.Message { return m.ProtoReflect().New() }}
 	}
